@@ -230,7 +230,7 @@ check("C21", "internal/accumulation",
       note="In-package harness (updateXi/updateVartheta are unexported). The PVM is not involved: n (how many of W* were accumulated) is chosen by the harness. Precondition as established by guarantee validation: package hashes are unique and freshly available reports are not in the accumulated history.",
       shards=(8, 16), env={"JAM_FUZZ": "1"},
       floors={"any": {"graphs_compared": 350000, "graphs_with_two_reports_of_one_package": 80000, "blocks_compared": 10000, "blocks_after_a_slot_gap": 3000, "blocks_after_a_gap_of_an_epoch_or_more": 1000, "blocks_releasing_queued_reports": 1000,
-                      "blocks_with_gas_cut": 500, "blocks_with_in_block_dependency_order_checked": 1000}},
+                      "blocks_with_gas_cut": 500, "blocks_with_in_block_dependency_order_checked": 1000, "histories_high_in_the_slot_range": 200}},
       exhaustive="all dependency graphs on 1..3 reports x all placements; every third graph again with two reports of one package", assumptions=[STANDIN_VRF])
 
 
@@ -300,7 +300,7 @@ check("C35", "internal/zzverif/c35",
       note="Admission rules the statement does not spell out (orderings, ages, signature validity, culprit/fault validity) are exercised by one-fault mutants but their outcome is only recorded (U11). State left behind by a REJECTED block is C26's subject.",
       shards=(8, 16), env={"JAM_FUZZ": "1"},
       floors={"any": {"blocks_accepted": 2000, "blocks_rejected": 500, "verdicts_good": 500, "verdicts_bad": 500, "verdicts_wonky": 500, "mutation_vote-split": 200, "mutation_already-judged": 50,
-                      "pending_reports_cleared": 100, "pending_reports_judged_good_kept": 50, "blocks_adding_to_nonempty_records": 1000}},
+                      "pending_reports_cleared": 100, "pending_reports_judged_good_kept": 50, "blocks_adding_to_nonempty_records": 1000, "histories_high_in_the_slot_range": 200}},
       assumptions=[STANDIN_VRF])
 
 check("C34", "internal/zzverif/c34",
@@ -311,7 +311,7 @@ check("C34", "internal/zzverif/c34",
       level_text="Every block of generated histories is compared with an independent model of the statistics equations; the race detector watches the three concurrent updaters. Held = no divergence and no race report on what was explored.",
       note="Reporter set per GP 11.26/13.5: the Ed25519 keys of guarantee signers taken from kappa' (same rotation, or previous rotation inside the same epoch) or lambda' (previous rotation in the previous epoch); no offenders are present, histories start at tau >= E + R so that tau' - R never underflows (U12).",
       shards=(8, 16), race=True, env={"JAM_FUZZ": "1"},
-      floors={"any": {"blocks": 3000, "blocks_at_an_epoch_change": 500, "guarantees": 1500, "guarantees_from_the_previous_rotation": 300, "assurances": 5000, "preimages": 3000, "blocks_with_available_reports": 1000, "service_records": 5000, "services_accumulated_without_a_report": 200}},
+      floors={"any": {"blocks": 3000, "blocks_at_an_epoch_change": 500, "guarantees": 1500, "guarantees_from_the_previous_rotation": 300, "assurances": 5000, "preimages": 3000, "blocks_with_available_reports": 1000, "service_records": 5000, "services_accumulated_without_a_report": 200, "histories_high_in_the_slot_range": 100}},
       assumptions=[STANDIN_VRF])
 
 check("C28", "internal/telemetry",
@@ -369,7 +369,7 @@ check("C23", "internal/zzverif/c23",
       note="Ring signatures, ticket identifiers and the entropy output come from the VRF stand-in (standin/vrf), which the harness also calls directly to make tickets; no cryptographic property is judged. The number of tickets per block is not judged against K (U-note in DESIGN §C23); validator sets without offenders.",
       shards=(8, 16), env={"JAM_FUZZ": "1"},
       floors={"any": {"blocks_accepted": 5000, "blocks_rejected": 800, "epoch_changes_with_ticket_sealers": 40, "epoch_changes_with_fallback_sealers": 100, "blocks_with_full_accumulator": 500, "blocks_where_tickets_were_pushed_out": 100,
-                      "rejected: not strictly increasing by identifier": 100, "rejected: ticket already in the accumulator": 30, "rejected: attempt out of range": 100, "rejected: tickets after the submission window": 30, "rejected: bad ring proof": 100}},
+                      "rejected: not strictly increasing by identifier": 100, "rejected: ticket already in the accumulator": 30, "rejected: attempt out of range": 100, "rejected: tickets after the submission window": 30, "rejected: bad ring proof": 100, "histories_high_in_the_slot_range": 30}},
       assumptions=[STANDIN_VRF])
 
 check("C26", "internal/zzverif/c26",
